@@ -59,6 +59,7 @@ type Contract struct {
 	NoInline     bool
 	Opaque       bool // treat body as unavailable (verify callers against contract only)
 	Lets         []LetDef
+	PureVerdict  string // name of the logic function giving "first error result is nil" as a function of the parameters
 	used         bool
 }
 
@@ -74,6 +75,15 @@ type Macro struct {
 	Body   Expr
 }
 
+type Lemma struct {
+	Name string
+	Tags []string
+	Text string
+	E    Expr
+	Src  string
+	Pkg  string
+}
+
 type GhostDecl struct {
 	Name, Sort string
 	Src        string
@@ -87,6 +97,7 @@ type SpecDB struct {
 	preamble  []string // raw SMT
 	funSigs   map[string]funSig
 	axioms    []*Clause // quantified/global axioms in contract language (trusted)
+	lemmas    []*Lemma
 	errors    []string
 }
 
@@ -120,7 +131,7 @@ func normKey(k string) string {
 var clauseKw = map[string]bool{
 	"func": true, "spec": true, "requires": true, "ensures": true, "modifies": true, "loop": true,
 	"panics-unless": true, "macro": true, "ghost": true, "axiom": true, "swallows": true,
-	"noinline": true, "opaque": true, "let": true, "letold": true, "smt": true,
+	"noinline": true, "opaque": true, "pure-verdict": true, "let": true, "letold": true, "smt": true, "lemma": true,
 }
 
 type rawItem struct {
@@ -361,6 +372,10 @@ func (db *SpecDB) loadItems(items []rawItem, pkgPath string, trusted bool) {
 			if cur != nil {
 				cur.Swallows = append(cur.Swallows, strings.Fields(rest)[0])
 			}
+		case "pure-verdict":
+			if cur != nil {
+				cur.PureVerdict = strings.TrimSpace(rest)
+			}
 		case "noinline":
 			if cur != nil {
 				cur.NoInline = true
@@ -409,6 +424,21 @@ func (db *SpecDB) loadItems(items []rawItem, pkgPath string, trusted bool) {
 			db.axioms = append(db.axioms, &Clause{Kind: "axiom", Tags: tags, Text: text, E: e, Src: it.src})
 		case "smt":
 			db.addPreamble(rest)
+		case "lemma":
+			// lemma[tags] name: formula
+			tags, text := parseTags(rest)
+			j := strings.Index(text, ":")
+			if j < 0 {
+				fail(it, "bad lemma (want name: formula)")
+				continue
+			}
+			e, err := parseExpr(text[j+1:])
+			if err != nil {
+				fail(it, "%v", err)
+				continue
+			}
+			db.lemmas = append(db.lemmas, &Lemma{Name: strings.TrimSpace(text[:j]), Tags: tags, Text: strings.TrimSpace(text[j+1:]), E: e, Src: it.src, Pkg: pkgPath})
+			cur = nil
 		}
 	}
 }
